@@ -366,7 +366,7 @@ impl Prop for ConnProp {
     fn describe(&self) -> Describe {
         Describe {
             level: "exploration",
-            rule: "each case = one seeded run of 2-4 complete litep2p nodes, each with two probe user protocols, on SimNet: materialised application dials (by peer id, by well-formed and adversarial addresses, simultaneous mutual dials), substream opens, force-closes, protocol exits, fault plan (resets, half-closes, byte-offset cuts, partitions, refused / black-holed / slow connects, node kill with reset or silent vanish, crash + restart with the same identity, process stalls), connection limits, scheduler kind and knobs, followed by a fault-free final phase that re-dials every disconnected pair; non-trivial = scheduler had >=1 choice point; distinct = distinct trace hash (scheduler decisions + every recorded event with virtual timestamp)".into(),
+            rule: "each case = one seeded run of 2-4 complete litep2p nodes, each with two probe user protocols, on SimNet: materialised application dials (by peer id, by well-formed and adversarial addresses, simultaneous mutual dials), substream opens, force-closes, protocol exits, fault plan (resets, half-closes, byte-offset cuts and single-bit corruption in flight, partitions, refused / black-holed / slow connects, node kill with reset or silent vanish, crash + restart with the same identity, process stalls), connection limits, scheduler kind and knobs, followed by a fault-free final phase that re-dials every disconnected pair; non-trivial = scheduler had >=1 choice point; distinct = distinct trace hash (scheduler decisions + every recorded event with virtual timestamp)".into(),
             real: vec!["Litep2p", "TransportManager + PeerState + AddressStore + ConnectionLimits", "TcpTransport/TcpConnection", "multistream-select", "Noise", "yamux", "ProtocolSet", "TransportService", "UserProtocol probes"],
             stub: vec!["socket layer (SimNet)", "clock", "task scheduler (seeded)", "HashMap seeds"],
             assumptions: vec![
@@ -393,6 +393,7 @@ impl Prop for ConnProp {
         }
         faults.extend(nodesim::gen_freeze_faults(seed, n, last + 2000));
         nodesim::add_restarts(seed, &mut faults);
+        faults.extend(nodesim::gen_flip_faults(seed));
         let mut knobs = gen_node_knobs(&mut rng);
         let limit_p = if self.id == "C06" { 3 } else { 1 };
         if rng.chance(limit_p, 5) {
